@@ -199,6 +199,17 @@ func execCase(kind string, args []string) (obs string) {
 	defer func() {
 		if e := recover(); e != nil {
 			obs = "panic"
+			if kind == "dnsproc" { // Go-side oracle kinds carry the panic class (narrow finding keys)
+				msg := fmt.Sprint(e)
+				switch {
+				case strings.Contains(msg, "slice bounds out of range"):
+					obs = "panic-slice-bounds"
+				case strings.Contains(msg, "index out of range"):
+					obs = "panic-index"
+				default:
+					obs = "panic-other"
+				}
+			}
 		}
 	}()
 	return f(args)
